@@ -1073,6 +1073,10 @@ func (env *Env) evalCall(n *Call) (TV, error) {
 		return TV{and(fmt.Sprintf("((_ is VRef) %s)", args[0].T), or(alts...)), tyBool}, nil
 	case "isnil":
 		return TV{fmt.Sprintf("((_ is VNil) %s)", args[0].T), tyBool}, nil
+	case "plain":
+		// plain(err): an error value whose Error() method is total (errors.New, fmt.Errorf and the
+		// errors of the standard library; NOT a goja exception, whose Error() may panic)
+		return TV{fmt.Sprintf("(plainerr %s)", args[0].T), tyBool}, nil
 	case "isstr":
 		return TV{fmt.Sprintf("((_ is VStr) %s)", args[0].T), tyBool}, nil
 	case "ext":
